@@ -98,8 +98,8 @@ theorem start_build_limit (orig : List Nat) :
 
 /-- Full statement for the first limit: an input of more than 49149 bytes gives the input-too-long error,
 whatever the configuration -/
-theorem tokenize_too_long (cfg : Cfg) (orig : List Nat) (h : orig.length > 49149) :
-    tokenize cfg orig = .err "TooLong" := by
+theorem tokenize_too_long (v : SplitV) (cfg : Cfg) (orig : List Nat) (h : orig.length > 49149) :
+    tokenize v cfg orig = .err "TooLong" := by
   unfold tokenize
   rw [(start_build_limit orig).2 h]
 
@@ -142,29 +142,151 @@ theorem morph_range_bytes_defined {st : Nat → Bool} {Bo : Nat → Prop} {N : N
   unfold morphRangeB
   rw [snds_getElem? l n.bb (by omega), snds_getElem? l n.eb (by omega)]
 
-/-- D6 on the model: a split unit longer than its parent (`東` = 3 bytes, first unit `東京都` = 9 bytes)
-makes `NodeSplitIterator::next` index `mod_b2c` out of range -/
-theorem split_longer_than_parent_counterexample :
-    isPanic (split (b2c [0xE6, 0x9D, 0xB1]) ⟨0, 1, 0, 3⟩ [9, 3]) = true ∧
-    isPanic (split (b2c [0xE6, 0x9D, 0xB1, 0xE4, 0xBA, 0xAC]) ⟨0, 2, 0, 6⟩ [3, 3]) = false := by decide
+/-! ## clause "never panics": `NodeSplitIterator::next` (D6 and its repair) -/
 
-/-- well-formed units (every proper prefix sum of the unit lengths is a byte offset inside the text) never
-index out of range: one step of the iterator -/
-theorem split_step_in_range (b2c : List Nat) (ce be h u : Nat) (rest : List Nat) (cs bs : Nat)
+/-- D6 on the model of the code **before** the repair (variant `cur`): a split unit longer than its parent
+(`東` = 3 bytes, first unit `東京都` = 9 bytes) makes `NodeSplitIterator::next` index `mod_b2c` out of range;
+a well-formed split does not.  (The tree now carries the repair `fix: keep split units inside their parent
+token`; the harness selects the variant by probing `analysis/node.rs`, so this stays the witness of what the
+old code did and of what a regression would do.) -/
+theorem split_longer_than_parent_counterexample :
+    isPanic (split .cur (b2c [0xE6, 0x9D, 0xB1]) (c2b [0xE6, 0x9D, 0xB1]) ⟨0, 1, 0, 3⟩ [9, 3]) = true ∧
+    isPanic (split .cur (b2c [0xE6, 0x9D, 0xB1, 0xE4, 0xBA, 0xAC]) (c2b [0xE6, 0x9D, 0xB1, 0xE4, 0xBA, 0xAC])
+      ⟨0, 2, 0, 6⟩ [3, 3]) = false := by decide
+
+/-- variant `cur`: well-formed units (every proper prefix sum of the unit lengths is a byte offset inside
+the text) never index out of range: one step of the iterator -/
+theorem split_step_in_range (b2c c2b : List Nat) (ce be h u : Nat) (rest : List Nat) (cs bs : Nat)
     (hin : bs + h < b2c.length) :
     ∃ c, b2c[bs + h]? = some c ∧
-      isPanic (splitGo b2c ce be (h :: u :: rest) cs bs) =
-        isPanic (splitGo b2c ce be (u :: rest) (asU16 c) (asU16 (bs + h))) := by
+      isPanic (splitGo .cur b2c c2b ce be (h :: u :: rest) cs bs) =
+        isPanic (splitGo .cur b2c c2b ce be (u :: rest) (asU16 c) (asU16 (bs + h))) := by
   refine ⟨b2c[bs + h], List.getElem?_eq_getElem hin, ?_⟩
-  simp only [splitGo, List.getElem?_eq_getElem hin]
-  cases splitGo b2c ce be (u :: rest) (asU16 b2c[bs + h]) (asU16 (bs + h)) <;> rfl
+  simp only [splitGo, unitEnd, List.getElem?_eq_getElem hin]
+  cases splitGo .cur b2c c2b ce be (u :: rest) (asU16 b2c[bs + h]) (asU16 (bs + h)) <;> rfl
+
+/-- **The repaired iterator (variant `d6fix`, the code that exists now) never indexes `mod_b2c` / `mod_c2b`
+out of range — for ANY unit key lengths** (no well-formedness of the split declaration is assumed) and any
+parent node whose byte end is inside the buffer.  The only facts used are the range facts of a built buffer
+(`TablesRange`): `mod_b2c[i]` exists for every `i ≤ nb` and is an index of `mod_c2b`.  They hold for the
+tables of every text with at least one character (`tables_of_text`; the model's `b2c`/`c2b` are the tables the
+`access` correspondence recomputes from the dumped text). -/
+theorem split_d6fix_never_out_of_range (tb2c tc2b : List Nat) (nb : Nat) (hr : TablesRange tb2c tc2b nb)
+    (n : EditM.NodeRange) (hn : n.eb ≤ nb) (units : List Nat) :
+    ∃ us, split .d6fix tb2c tc2b n units = .ok us :=
+  splitGo_d6fix_ok tb2c tc2b nb hr n.ec n.eb hn units n.bc n.bb
+
+/-- the range facts are those of the tables of a text: instance of the previous theorem for `mod_b2c`/`mod_c2b`
+as `InputBuffer::build` fills them (any text that begins with a character start, any units, any node ending
+inside the text) -/
+theorem split_d6fix_never_out_of_range_text (t : List Nat) (h1 : 1 ≤ nchars t)
+    (n : EditM.NodeRange) (hn : n.eb ≤ t.length) (units : List Nat) :
+    ∃ us, split .d6fix (b2c t) (c2b t) n units = .ok us :=
+  split_d6fix_never_out_of_range _ _ t.length (tables_of_text t h1) n hn units
+
+/-- **Every unit of the repaired iterator stays inside its parent** — again for any unit key lengths.  Under the
+table invariants of a built buffer of `nb ≤ 65535` bytes and `nc ≤ 65535` characters (`TablesOk`: `mod_b2c` and
+`mod_c2b` non-decreasing and in range, `mod_c2b[mod_b2c[i]] ≤ i`, `mod_b2c[mod_c2b[k]] = k`; cf. C09 `B2cOk`/`C2bOk`,
+C08 `c2b_spec`) and for a parent that begins and ends on character starts inside the buffer (`At`), the split
+succeeds and its units (a) lie in the parent's byte range and character range, (b) run forward (`begin ≤ end`, so
+`surface()` never slices backwards — the third D6 symptom), (c) begin and end on character starts (so no
+`off char boundary` assertion), (d) tile the parent: the first begins where the parent begins, each next one where
+the previous ended, the last ends where the parent ends. -/
+theorem split_d6fix_units_inside_parent (tb2c tc2b : List Nat) (nb nc : Nat) (ht : TablesOk tb2c tc2b nb nc)
+    (hnb : nb ≤ 65535) (hnc : nc ≤ 65535) (n : EditM.NodeRange) (hle : n.bb ≤ n.eb) (hn : n.eb ≤ nb)
+    (hb : At tb2c tc2b n.bc n.bb) (he : At tb2c tc2b n.ec n.eb) (units : List Nat) (hu : units ≠ []) :
+    ∃ us, split .d6fix tb2c tc2b n units = .ok us ∧ (∀ u ∈ us, UnitOk tb2c tc2b n u) ∧
+      Tiles us n.bc n.bb n.ec n.eb := by
+  obtain ⟨us, h1, h2, h3⟩ := splitGo_d6fix_spec tb2c tc2b nb nc ht hnb hnc n hn he units n.bc n.bb hu hb
+    (Nat.le_refl _) hle (Nat.le_refl _)
+  exact ⟨us, h1, h3, h2⟩
+
+/-- non-vacuity, and the D6 witness under the repair: `東` (3 bytes, 1 character) satisfies the table invariants
+(`tablesOk_of_text`), the parent `0..1 / 0..3` is on character starts, and the ill-formed units `[9, 3]` now give
+`東` + an empty unit at the parent's end (what the repaired code returns: directed cases `d6-split-*`) -/
+example : TablesOk (b2c [0xE6, 0x9D, 0xB1]) (c2b [0xE6, 0x9D, 0xB1]) 3 1 ∧
+    At (b2c [0xE6, 0x9D, 0xB1]) (c2b [0xE6, 0x9D, 0xB1]) 0 0 ∧ At (b2c [0xE6, 0x9D, 0xB1]) (c2b [0xE6, 0x9D, 0xB1]) 1 3 ∧
+    split .d6fix (b2c [0xE6, 0x9D, 0xB1]) (c2b [0xE6, 0x9D, 0xB1]) ⟨0, 1, 0, 3⟩ [9, 3] = .ok [⟨0, 1, 0, 3⟩, ⟨1, 1, 3, 3⟩] :=
+  ⟨tablesOk_of_text [0xE6, 0x9D, 0xB1] 0xE6 [0x9D, 0xB1] rfl (by decide), by unfold At; decide, by unfold At; decide, rfl⟩
+
+/-! ## clause "never … indexes out of bounds": back-pointers of `fill_top_path`, `mod_c2b` in `resolve_best_path` -/
+
+/-- **`lattice_index_in_range`.**  After `build_lattice` (all `insert`s, then a `connect_eos` that succeeded) the walk of
+`fill_top_path` along the back-pointers never indexes `ends`/`indices` out of range, terminates within `len + 1` steps
+at a node that begins at 0, visits only nodes inside the text (`begin < end ≤ len`), and `resolve_best_path`'s
+`mod_c2b` lookups for those nodes are in range — for ANY addition (`add` arbitrary: checked, wrapping, overflowing or
+not), any costs and any connection matrix.  Hypotheses: the candidates are non-empty and inside the text (`hnodes`), the
+text has between 1 and 65535 characters, and **fewer than 65536 candidates end at any one boundary** (`hrow`: the row
+index of the back-pointer is a `u16`; nothing in the code enforces this, see `u16_cast_wraps_counterexample`), `t` is a
+text with at least `len` character starts (`utf8Decode_length_le`).
+Invariant (`PathInv`, by induction over the insertion order): every stored entry lies in the row of its end, begins
+before it, and is either unconnected (sentinel) or points to `(begin, index of a connected entry of row begin)`. -/
+theorem lattice_index_in_range (add : Int → Int → Option Int) (conn : Nat → Nat → Int) (len : Nat)
+    (hlen : 1 ≤ len ∧ len ≤ 65535) (nodes : List Vit.Node) (hnodes : ∀ n ∈ nodes, n.b < n.e ∧ n.e ≤ len)
+    (hrow : ∀ e, nodes.countP (fun n => n.e == e) ≤ 65535)
+    (rows : Rows) (ents : List Entry) (c : Int) (pe pi : Nat)
+    (hb : buildAll add I32_MAX conn nodes (reset len) [] = .ok (rows, ents))
+    (he : connectEos add I32_MAX conn rows len = .ok (c, pe, pi)) (t : List Nat) (ht : len ≤ nchars t) :
+    ∃ path, topPath rows (len + 1) (pe, pi) [] = .ok path ∧
+      (∀ x ∈ path, x.node.b < x.node.e ∧ x.node.e ≤ len) ∧
+      ∃ rs, mapM (resultNode (c2b t)) path = .ok rs := by
+  have hinv := buildAll_pathInv add conn len hlen.2 nodes (reset len) [] rows ents (reset_pathInv len nodes hrow) hnodes hb
+  obtain ⟨hpe, row, p, h1, h2, h3⟩ := connectEos_ptr add conn len hlen.2 rows hinv c pe pi he
+  subst hpe
+  obtain ⟨path, g1, g2⟩ := topPath_ok pe rows hinv pe (pe + 1) pi p [] row hlen.1 (by omega) h1 h2 h3
+  have g3 : ∀ x ∈ path, x.node.b < x.node.e ∧ x.node.e ≤ pe := by
+    intro x hx
+    rcases g2 x hx with g | g
+    · cases g
+    · exact g
+  refine ⟨path, g1, g3, mapM_ok _ path ?_⟩
+  intro x hx
+  obtain ⟨a1, a2⟩ := g3 x hx
+  have hl := c2b_length t
+  obtain ⟨bb, hbb⟩ : ∃ v, (c2b t)[x.node.b]? = some v := ⟨_, List.getElem?_eq_getElem (by omega)⟩
+  obtain ⟨eb, heb⟩ : ∃ v, (c2b t)[x.node.e]? = some v := ⟨_, List.getElem?_eq_getElem (by omega)⟩
+  exact ⟨⟨x.node.b, x.node.e, asU16 bb, asU16 eb⟩, by simp only [resultNode, hbb, heb]⟩
+
+/-- non-vacuity: two one-character words over `ab`; the walk returns both, in text order -/
+example : ∃ rows ents c pe pi,
+    buildAll addI32 I32_MAX (fun _ _ => 1) [⟨0, 1, 0, 0, 5⟩, ⟨1, 2, 0, 0, 5⟩] (reset 2) [] = .ok (rows, ents) ∧
+    connectEos addI32 I32_MAX (fun _ _ => 1) rows 2 = .ok (c, pe, pi) ∧
+    (match topPath rows 3 (pe, pi) [] with | .ok p => p.map (fun x => (x.node.b, x.node.e)) | _ => []) = [(0, 1), (1, 2)] :=
+  ⟨_, _, _, _, _, rfl, rfl, rfl⟩
+
+/-! ## clause "never … indexes out of bounds": the candidates of `build_lattice` lie inside the text -/
+
+/-- **Every candidate `build_lattice` inserts is non-empty and ends inside the text** (`begin < end ≤ n`): dictionary
+words (entered by the C04 look-up specification), MeCab candidates (grouped and per length), the Simple provider's
+node and the regex provider's match — so `Lattice::insert` indexes `ends[begin]`/`ends[end]` in range.  Hypothesis
+`BufOk`: the buffer has one class word and one word-start flag per character and every run of
+`mod_cat_continuity` ends inside the text (`offset + cont[offset] ≤ n`).  (This is the `e ≤ n` lemma for MeCab
+candidates that `tokenize_total_partial` used to assume.) -/
+theorem candidates_inside_text (ps : List Provider) (lex : List Word) (buf : Buf) (hb : BufOk buf)
+    (nodes : List Oov.Node) (h : buildLattice ps lex buf = .ok nodes) :
+    ∀ x ∈ nodes, x.b < x.e ∧ x.e ≤ buf.chars.length :=
+  buildLattice_cand ps lex buf hb nodes h
+
+/-- the hypothesis `BufOk` is discharged for the buffer of `Model/Oov.lean` with the left-to-right run table
+(`mkBufV .forward`, what the C13 correspondence ties to `InputBuffer::build` of the tree after
+`fix: compute character-class runs left to right`; either word-start variant): all candidates lie inside the text -/
+theorem candidates_inside_text_built (bowFix : Bool) (tab : List (Nat × Nat)) (chars : List Nat) (buf : Buf)
+    (hbuf : mkBufV .forward bowFix tab chars = some buf) (ps : List Provider) (lex : List Word)
+    (nodes : List Oov.Node) (h : buildLattice ps lex buf = .ok nodes) :
+    ∀ x ∈ nodes, x.b < x.e ∧ x.e ≤ chars.length := by
+  obtain ⟨hb, hc⟩ := mkBufV_forward_ok bowFix tab chars buf hbuf
+  intro x hx
+  have := candidates_inside_text ps lex buf hb nodes h x hx
+  rw [hc] at this
+  exact this
 
 /-! ## the composition: `do_tokenize` never panics -/
 
 /-- Full statement wanted (`tokenize_total`): *for every text and every configuration that loaded
 successfully the outcome of `tokenize` is `ok` or `err`, never `panic`; with a fallback provider last it is
 `ok` whenever `|orig| ≤ 49149 ∧ |normalised| ≤ 65535`, and `err TooLong` beyond.*  It is FALSE for the code
-(D7 overflow / sentinel, D6 ill-formed splits, the running-length check, the numeral loop of C14).
+(D7 overflow / sentinel, the running-length check, the numeral loop of C14; before the commit
+`fix: keep split units inside their parent token` also D6, ill-formed splits).
 
 Proved (partial): the stages compose without a panic when
 * `hplug`  the input-text plugins return edits or an error (bundled plugins: C07 `*_edits_ok`, `edits_ok_apply_total`);
@@ -172,33 +294,44 @@ Proved (partial): the stages compose without a panic when
 * `hlat`   the lattice builder does not panic (C13 proves "never Disconnect with a fallback last"; index safety of
            the providers under well-formed run tables and the exclusion of regexes matching the empty string are
            the missing component lemma);
-* `hnodes` every candidate is non-empty, inside the text and has an `i16` cost (C13 `mecab_candidates_spec`,
-           `simple_iff_empty`; missing: `e ≤ n` for MeCab candidates);
+* `hbuf`   the buffer `InputBuffer::build` produces has the shape `BufOk` (one class word / word-start flag per character,
+           runs end inside the text); with it "every candidate is non-empty and inside the text" is PROVED
+           (`candidates_inside_text`) — the former hypothesis `hnodes` is reduced to
+* `hcost`  the candidates' word costs are `i16` values (they are read from `i16` fields of the dictionary / the plugin settings);
 * `hconn`  the matrix is `i16`;
 * `hbound` **the normalised text has at most 32767 characters** — the D7 hypothesis, not implied by the limits;
-* `hpath`, `hres` back-pointers and `mod_c2b` indices are in range (missing lemma `lattice_index_in_range`;
-           tied by the `cost` correspondence: back-pointers are compared entry by entry);
+* `hrowsz` fewer than 65536 candidates end at any one boundary (the back-pointer's row index is a `u16`); with it the
+           back-pointer walk and the `mod_c2b` lookups are PROVED in range (`lattice_index_in_range`, `utf8Decode_length_le`) —
+           the former hypotheses `hpath`/`hres` are gone;
 * `hrew`   word-info lookup and the path-rewrite plugins do not panic (C14 `join_katakana_total`; the numeral loop
            can diverge: C14 finding);
-* `hsplit` split units are well formed (`split_step_in_range`; D6 otherwise).
+* `hsplit` ONLY for the variant `cur` (the code before the repair of D6): split units are well formed
+           (`split_step_in_range`; D6 otherwise).  For the variant `d6fix` (the code that exists now) this hypothesis is
+           GONE: `split_d6fix_never_out_of_range` + `tables_of_text` + `nchars_pos_of_utf8` show that `split_path` cannot
+           panic on the tables of the rewritten text whatever the units are; what remains is
+* `hkeep`  (variant `d6fix`) the word-info lookup / path-rewrite plugins keep the byte end of every node inside the text
+           when the nodes they are given are (`concat_nodes` takes the end of the last node: C14 `join_*_coarsens`); that the
+           nodes of `resolve_best_path` are inside the text is proved here (`resultNode_eb_le`).
 Under the same hypotheses an input of more than 49149 bytes gives `err TooLong` (`tokenize_too_long`, unconditional). -/
-theorem tokenize_total_partial (cfg : Cfg) (orig : List Nat)
+theorem tokenize_total_partial (v : SplitV) (cfg : Cfg) (orig : List Nat)
     (hplug : ∀ p ∈ cfg.inputPlugins, ∀ t, NoPanic (p t))
     (hutf : ∀ l0 l, startBuild orig = some l0 → rewriteInput cfg.inputPlugins l0 = .ok l →
       Wire.utf8Decode (textOf l) ≠ none)
     (hlat : ∀ chars, NoPanic (buildLattice cfg.providers cfg.lex (cfg.mkBuf chars)))
-    (hnodes : ∀ chars nodes, buildLattice cfg.providers cfg.lex (cfg.mkBuf chars) = .ok nodes →
-      ∀ n ∈ nodes.map toVit, NodeOk chars.length n)
+    (hbuf : ∀ chars, BufOk (cfg.mkBuf chars) ∧ (cfg.mkBuf chars).chars.length = chars.length)
+    (hcost : ∀ chars nodes, buildLattice cfg.providers cfg.lex (cfg.mkBuf chars) = .ok nodes →
+      ∀ x ∈ nodes, -32768 ≤ x.c ∧ x.c ≤ 32767)
     (hconn : I16Conn cfg.conn)
     (hbound : ∀ l0 l chars, startBuild orig = some l0 → rewriteInput cfg.inputPlugins l0 = .ok l →
       Wire.utf8Decode (textOf l) = some chars → chars.length ≤ 32767)
-    (hpath : ∀ (len : Nat) (rows : Rows) (c : Int) (pe pi : Nat), RowsInv len rows →
-      connectEos addI32 I32_MAX cfg.conn rows len = .ok (c, pe, pi) → NoPanic (topPath rows (len + 1) (pe, pi) []))
-    (hres : ∀ (len : Nat) (rows : Rows) (pe pi : Nat) (ents : List Entry) (text : List Nat), RowsInv len rows →
-      topPath rows (len + 1) (pe, pi) [] = .ok ents → NoPanic (mapM (resultNode (c2b text)) ents))
+    (hrowsz : ∀ chars nodes, buildLattice cfg.providers cfg.lex (cfg.mkBuf chars) = .ok nodes →
+      ∀ e, (nodes.map toVit).countP (fun n => n.e == e) ≤ 65535)
     (hrew : ∀ path, NoPanic (cfg.rewrite path))
-    (hsplit : ∀ text path path', cfg.rewrite path = .ok path' → NoPanic (splitPath (b2c text) path')) :
-    NoPanic (tokenize cfg orig) := by
+    (hsplit : v = .cur → ∀ text path path', cfg.rewrite path = .ok path' →
+      NoPanic (splitPath .cur (b2c text) (c2b text) path'))
+    (hkeep : v = .d6fix → ∀ (nb : Nat) path path', (∀ q ∈ path, q.eb ≤ nb) → cfg.rewrite path = .ok path' →
+      ∀ p ∈ path', p.1.eb ≤ nb) :
+    NoPanic (tokenize v cfg orig) := by
   intro w h
   unfold tokenize at h
   cases h0 : startBuild orig with
@@ -216,14 +349,32 @@ theorem tokenize_total_partial (cfg : Cfg) (orig : List Nat)
         rw [h2] at h; simp only [] at h
         split at h
         · simp at h
-        · cases h3 : buildLattice cfg.providers cfg.lex (cfg.mkBuf chars) with
+        · rename_i hne0
+          have hne : chars.isEmpty = false := by
+            cases hc : chars.isEmpty with
+            | true => exact absurd hc hne0
+            | false => rfl
+          have hpos : 1 ≤ chars.length := by
+            cases chars with
+            | nil => simp at hne
+            | cons _ _ => simp
+          cases h3 : buildLattice cfg.providers cfg.lex (cfg.mkBuf chars) with
           | err k => rw [h3] at h; simp at h
           | panic w' => exact hlat chars w' h3
           | ok nodes =>
             rw [h3] at h; simp only [] at h
             have hlen := hbound l0 l chars h0 h1 h2
+            have hnodes : ∀ n ∈ nodes.map toVit, NodeOk chars.length n := by
+              intro n hn
+              obtain ⟨x, hx, rfl⟩ := List.mem_map.mp hn
+              obtain ⟨a1, a2⟩ := C03.candidates_inside_text cfg.providers cfg.lex (cfg.mkBuf chars) (hbuf chars).1 nodes h3 x hx
+              rw [(hbuf chars).2] at a2
+              obtain ⟨c1, c2⟩ := hcost chars nodes h3 x hx
+              simp only [NodeOk, toVit]
+              rw [asU16_id x.b (by omega), asU16_id x.e (by omega)]
+              exact ⟨a1, a2, c1, c2⟩
             obtain ⟨rows, ents, hb1, hinv, _⟩ :=
-              C03.cost_no_overflow_partial cfg.conn hconn chars.length hlen (nodes.map toVit) (hnodes chars nodes h3)
+              C03.cost_no_overflow_partial cfg.conn hconn chars.length hlen (nodes.map toVit) hnodes
             rw [hb1] at h; simp only [] at h
             cases h4 : connectEos addI32 I32_MAX cfg.conn rows chars.length with
             | err k => rw [h4] at h; simp at h
@@ -234,25 +385,32 @@ theorem tokenize_total_partial (cfg : Cfg) (orig : List Nat)
             | ok r =>
               obtain ⟨c, pe, pi⟩ := r
               rw [h4] at h; simp only [] at h
-              cases h5 : topPath rows (chars.length + 1) (pe, pi) [] with
-              | err k => rw [h5] at h; simp at h
-              | panic w' => exact hpath chars.length rows c pe pi hinv h4 w' h5
-              | ok es =>
-                rw [h5] at h; simp only [] at h
-                cases h6 : mapM (resultNode (c2b (textOf l))) es with
-                | err k => rw [h6] at h; simp at h
-                | panic w' => exact hres chars.length rows pe pi es (textOf l) hinv h5 w' h6
-                | ok path =>
-                  rw [h6] at h; simp only [] at h
-                  cases h7 : cfg.rewrite path with
-                  | err k => rw [h7] at h; simp at h
-                  | panic w' => exact hrew path w' h7
-                  | ok path' =>
-                    rw [h7] at h; simp only [] at h
-                    cases h8 : splitPath (b2c (textOf l)) path' with
-                    | err k => rw [h8] at h; simp at h
-                    | panic w' => exact hsplit (textOf l) path path' h7 w' h8
-                    | ok ms => rw [h8] at h; simp at h
+              obtain ⟨es, h5, _, path, h6⟩ := C03.lattice_index_in_range addI32 cfg.conn chars.length ⟨hpos, by omega⟩
+                (nodes.map toVit) (fun n hn => ⟨(hnodes n hn).1, (hnodes n hn).2.1⟩)
+                (hrowsz chars nodes h3) rows ents c pe pi hb1 h4 (textOf l)
+                (utf8Decode_length_le _ (textOf l) chars (Nat.le_refl _) h2)
+              rw [h5] at h; simp only [] at h
+              rw [h6] at h; simp only [] at h
+              cases h7 : cfg.rewrite path with
+              | err k => rw [h7] at h; simp at h
+              | panic w' => exact hrew path w' h7
+              | ok path' =>
+                rw [h7] at h; simp only [] at h
+                cases h8 : splitPath v (b2c (textOf l)) (c2b (textOf l)) path' with
+                | err k => rw [h8] at h; simp at h
+                | ok ms => rw [h8] at h; simp at h
+                | panic w' =>
+                  cases v with
+                  | cur => exact hsplit rfl (textOf l) path path' h7 w' h8
+                  | d6fix =>
+                    have hin : ∀ q ∈ path, q.eb ≤ (textOf l).length := by
+                      intro q hq
+                      obtain ⟨ent, _, hf⟩ := mapM_mem _ es path h6 q hq
+                      exact (resultNode_eb_le (textOf l) ent q hf).2
+                    obtain ⟨ms, hms⟩ := splitPath_d6fix_ok (b2c (textOf l)) (c2b (textOf l)) (textOf l).length
+                      (tables_of_text (textOf l) (nchars_pos_of_utf8 (textOf l) chars h2 hne)) path'
+                      (hkeep rfl (textOf l).length path path' hin h7)
+                    rw [hms] at h8; cases h8
 
 /-- non-vacuity of the composition: a configuration without plugins, a one-word lexicon and the Simple
 provider last, on the text `a` (one morpheme) and on the empty text (no morpheme) -/
@@ -261,10 +419,40 @@ def exampleCfg : Cfg :=
     providers := [.simple ⟨0, 0, 100, 0⟩], lex := [⟨[97], 0, 0, 5⟩], conn := fun _ _ => 10,
     rewrite := fun p => .ok (p.map (fun n => (n, []))) }
 
-example : morphCount (tokenize exampleCfg [97]) = some 1 ∧ morphCount (tokenize exampleCfg []) = some 0 := by
-  constructor
+/-- non-vacuity of `hbuf`: the example configuration's buffer has the shape `BufOk` -/
+example : ∀ chars, BufOk (exampleCfg.mkBuf chars) ∧ (exampleCfg.mkBuf chars).chars.length = chars.length := by
+  intro chars
+  refine ⟨⟨by simp [exampleCfg], by simp [exampleCfg], ?_⟩, by simp [exampleCfg]⟩
+  intro o c h
+  simp only [exampleCfg, List.getElem?_map] at h
+  cases hc : chars[o]? with
+  | none => rw [hc] at h; cases h
+  | some v =>
+    rw [hc] at h; simp only [Option.map_some, Option.some.injEq] at h
+    have := (List.getElem?_eq_some_iff.mp hc).1
+    simp only [exampleCfg]; omega
+
+/-- non-vacuity of `hrowsz` / `hcost` on the example: the candidates over `a` -/
+example : (match buildLattice exampleCfg.providers exampleCfg.lex (exampleCfg.mkBuf [97]) with
+    | .ok nodes => decide ((nodes.map toVit).countP (fun n => n.e == 1) ≤ 65535) && nodes.all (fun x => decide (-32768 ≤ x.c ∧ x.c ≤ 32767)) && !nodes.isEmpty
+    | _ => false) = true := by decide
+
+/-- non-vacuity of `hkeep`: the example configuration's path rewrite keeps byte ends inside the text -/
+example : ∀ (nb : Nat) path path', (∀ q ∈ path, q.eb ≤ nb) → exampleCfg.rewrite path = .ok path' →
+    ∀ p ∈ path', p.1.eb ≤ nb := by
+  intro nb path path' hin h p hp
+  simp only [exampleCfg] at h
+  cases h
+  obtain ⟨q, hq, rfl⟩ := List.mem_map.mp hp
+  exact hin q hq
+
+example : morphCount (tokenize .d6fix exampleCfg [97]) = some 1 ∧ morphCount (tokenize .d6fix exampleCfg []) = some 0 ∧
+    morphCount (tokenize .cur exampleCfg [97]) = some 1 := by
+  refine ⟨?_, ?_, ?_⟩
   · simp [tokenize, startBuild, MAX_LENGTH, identFrom, exampleCfg, rewriteInput, textOf, Wire.utf8Decode]
     decide
   · simp [tokenize, startBuild, MAX_LENGTH, identFrom, exampleCfg, rewriteInput, textOf, Wire.utf8Decode, morphCount]
+  · simp [tokenize, startBuild, MAX_LENGTH, identFrom, exampleCfg, rewriteInput, textOf, Wire.utf8Decode]
+    decide
 
 end C03
